@@ -121,14 +121,14 @@ PROPS["C02"] = dict(
 )
 
 PROPS["C16"] = dict(
-    units=["palette"],
+    units=["palette", "palette_ega", "ansi_cmds"],
     trusted_base=COMMON_TRUST + ["S4: derived Clone / Default of Color are structural (external_body impls in the unit)", "usize is 64 bits", "palettes hold fewer than 2^31 colours"],
     unverified_remainder=["export_palette / load_palette for Hex, JASC PAL, GIMP GPL, ICE, Paint.NET TXT: format!-built text out and regular expressions in; neither verifier has a theory for either - this clause of C16 is NOT decided",
                           "Palette::resize / fill_to_16 / set_color_hsl (float)"],
     explanation="insert_color / insert_color_rgb are proved to return an index that resolves to exactly the RGB value, to leave every previous "
                 "index unchanged (whole-sequence frame) and to return the first existing index when the colour is present; set_color(_rgb) "
                 "change only the addressed index; get_rgb / get_color equal the abstract resolution pal_rgb; the 6-bit codec (from_63 / "
-                "as_vec_63) equals pal6_expand / pal6_reduce entry-wise and lemma_pal6_idempotent proves idempotence for all 6-bit values.",
+                "as_vec_63) equals pal6_expand / pal6_reduce entry-wise and lemma_pal6_idempotent proves idempotence for all 6-bit values; the EGA variant of ADF files (unit palette_ega: from_ega_data / to_ega_data read and write the 16 fixed slots of the 64-entry table, lemma_ega_roundtrip). Call site SGR 38/48 (unit ansi_cmds, clauses tagged C16): parse_extended_colors returns an index that resolves to the selected xterm table entry / RGB triple (through the insert contracts proved in unit palette).",
 )
 
 import scans
